@@ -254,8 +254,16 @@ func GoType(t *TypeSpec) reflect.Type {
 // ---------------------------------------------------------------------------
 // tags
 
+var otherTags = [][2]string{{"", ""}, {`json:"name,omitempty" `, ""}, {`doc:"say \"hi\", then leave" `, ""}, {"", ` json:"x" db:"-"`},
+	{`example:"a\\b \"frugal:\" c" validate:"gte=0,lte=130" `, ` json:"-"`}}
+
 // RenderTag renders the struct tag of f according to its Spelling.
 func RenderTag(f *FieldSpec) string {
+	o := otherTags[int(f.Sp.Other)%len(otherTags)]
+	return o[0] + renderOwnTag(f) + o[1]
+}
+
+func renderOwnTag(f *FieldSpec) string {
 	sp := f.Sp
 	body := tagBody(f, sp)
 	switch sp.Carrier {
